@@ -230,8 +230,7 @@ def scenario(c, inst):
                 s2 = absval(c, T[2] - T[1])
                 remaining = absval(c, tf - T[1])
                 # the step after the callback has the assigned magnitude, unless it is the clamped final step
-                ok = c.any([c.eq(s2, g), c.all([c.le(remaining, g), c.eq(s2, remaining)]),
-                            c.all([c.lt(remaining, g), c.eq(s2, remaining)])])
+                ok = c.any([c.all([c.le(g, remaining, 1), c.eq(s2, g)]), c.all([c.le(remaining, g, 1), c.eq(s2, remaining)])])
                 c.check("c20.dt_assigned_by_callback_is_next_step", ok, info=dict(rows=len(T)))
             return
         if mode == "cbdt2":
